@@ -98,7 +98,7 @@ package tbtc
 //@   ensures result != nil && !old(allocated(result)) && result.coordinationBlock == coordinationBlock
 
 //@ func coordinationWindow.index
-//@   property C23
+//@   property C23 C22
 //@   ensures (result > 0) <==> (cw.coordinationBlock % coordinationFrequencyBlocks == 0 && cw.coordinationBlock > 0)
 //@   ensures result > 0 ==> result * coordinationFrequencyBlocks == cw.coordinationBlock
 //@   ensures coordinationFrequencyBlocks == 900
